@@ -41,6 +41,8 @@ type tdEnv struct {
 	infos  map[string]*amino.TypeInfo
 	ifaces map[string]reflect.Type // interface id -> type, for every `I(id)` emitted
 	order  []string
+	// descriptor features seen (decide what the model can follow)
+	hasMarsh, hasUnmodelled bool
 }
 
 func newEnv() *tdEnv {
@@ -181,6 +183,7 @@ func (e *tdEnv) tdOf(info *amino.TypeInfo, fopts amino.FieldOptions, top bool) s
 	}
 	rt := info.Type
 	if info.IsAminoMarshaler {
+		e.hasMarsh = true
 		if rt.Kind() == reflect.Struct {
 			return "Ms(" + e.tdOf(info.ReprType, fopts, false) + ")"
 		}
@@ -210,6 +213,7 @@ func (e *tdEnv) tdOf(info *amino.TypeInfo, fopts amino.FieldOptions, top bool) s
 		if rt.Kind() == reflect.Slice {
 			sb.WriteByte('L')
 		} else {
+			e.hasUnmodelled = true
 			sb.WriteString("A" + strconv.Itoa(rt.Len()))
 		}
 		if rt.Elem().Kind() == reflect.Pointer {
@@ -227,6 +231,7 @@ func (e *tdEnv) tdOf(info *amino.TypeInfo, fopts amino.FieldOptions, top bool) s
 		case fopts.BinFixed64:
 			return "x64i"
 		case fopts.BinFixed32 && rt.Kind() == reflect.Int:
+			e.hasUnmodelled = true
 			return "X32i"
 		case fopts.BinPlainVarint:
 			return "p64"
@@ -249,6 +254,7 @@ func (e *tdEnv) tdOf(info *amino.TypeInfo, fopts amino.FieldOptions, top bool) s
 		case fopts.BinFixed64:
 			return "x64u"
 		case fopts.BinFixed32 && rt.Kind() == reflect.Uint:
+			e.hasUnmodelled = true
 			return "X32u"
 		}
 		return "u64"
